@@ -226,7 +226,9 @@ class Group:
         Timeout defaults to None meaning open-ended waiting and no kill
         attempts.
         """
-        while self:
+        # gateways that were exit()ed before still have to be joined (and
+        # killed after the timeout), also when no member is left
+        while self or self._gateways_to_join:
             vias: set[str] = set()
             # a gateway that was exited before still has to be waited for
             # through the gateway it is proxied by: keep that one up as well
